@@ -470,7 +470,59 @@ def _scheme_families_worker(sub, c):
     else:
         allowed = {"light"}
     bad = [f for f in fams if f not in allowed]
+    _massive_flavours_alike(sub, c, ks, sy)
     sub.add(ob_eval(f"{sub.pid}/scheme-dispatch/{cell_name(c)}/kernel families {sorted(allowed)} only", not bad, detail=f"families collected: {fams}", inputs={} if not bad else {"cell": cell_name(c), "families": str(fams), "offending classes": str(sorted({type(k.coeff).__module__.split('.', 2)[2] + '.' + type(k.coeff).__name__ for k in ks if type(k.coeff).__module__.split('.')[2] in bad})[:6])}))
+
+
+def kernel_mass_index(coeff, Q2, m2s):
+    """Which heavy quark (4, 5, 6) a massive / asymptotic / heavy-quark-initiated coefficient object was
+    built for, read off the mass it stores (m2hq, labda = 1/(1+m2/Q2), L = log(Q2/m2), m1sq/m2sq)."""
+    import math
+
+    d = getattr(coeff, "__dict__", {})
+    cands = []
+    if "m2hq" in d:
+        cands.append(d["m2hq"])
+    if "labda" in d:
+        cands.append(Q2 * (1.0 / d["labda"] - 1.0))
+    if "L" in d and "m2hq" not in d:
+        cands.append(Q2 / math.exp(d["L"]))
+    for k in ("m1sq", "m2sq"):
+        if k in d:
+            cands.append(d[k])
+    for c_ in cands:
+        try:
+            c_ = float(c_)
+        except Exception:  # noqa
+            continue
+        for ihq, m2 in zip((4, 5, 6), m2s):
+            if c_ > 0 and abs(c_ - m2) <= 1e-9 * m2:
+                return ihq
+    return None
+
+
+def _massive_flavours_alike(sub, c, ks, sy):
+    """'The proper physical object accounts for all contributions of the full Lagrangian' (fns.rst):
+    in a fixed-flavour calculation every massive quark enters alike -- for a total (or light)
+    observable the kernel classes collected for one massive flavour (pair production, heavy-quark loop
+    on a light-quark line, heavy-quark initiated; with or without parton weights) are those collected
+    for every other massive flavour."""
+    from pvc.core import ob_eval
+
+    if c["scheme"] not in ("FFNS", "FFN0") or c["flavor"] not in ("total", "light"):
+        return
+    m2s = (sy.m2c, sy.m2b, sy.m2t)
+    massive = [h for h in (4, 5, 6) if h > c["nf"]]
+    if len(massive) < 2:
+        return
+    sig = {h: [] for h in massive}
+    for k in ks:
+        h = kernel_mass_index(k.coeff, sy.Q2, m2s)
+        if h in sig:
+            sig[h].append((type(k.coeff).__module__.split(".", 2)[2] + "." + type(k.coeff).__name__, bool(k.partons)))
+    sigs = {h: sorted(v) for h, v in sig.items()}
+    ok = all(sigs[h] == sigs[massive[0]] for h in massive)
+    sub.add(ob_eval(f"{sub.pid}/scheme-dispatch/{cell_name(c)}/every massive flavour {massive} contributes the same kernel classes", ok, detail=str({h: len(v) for h, v in sigs.items()}), inputs={} if ok else {"cell": cell_name(c), "kernel classes per massive flavour (class, has weights)": str({h: v[:8] for h, v in sigs.items()})}))
 
 
 def scheme_families(rep, tier="quick"):
